@@ -56,6 +56,23 @@ type Outcome struct {
 	Stats    map[string]int `json:"stats,omitempty"`
 }
 
+// ExitDirty: the child stopped before a job because goroutines of an earlier attack were still alive.
+const ExitDirty = 75
+
+func noAttackGoroutines(d time.Duration) bool {
+	deadline := time.Now().Add(d)
+	for {
+		alive, _ := attackGoroutines()
+		if alive == 0 {
+			return true
+		}
+		if time.Now().After(deadline) {
+			return false
+		}
+		time.Sleep(time.Millisecond)
+	}
+}
+
 func ChildMain() {
 	var jobs []Job
 	if err := json.NewDecoder(os.Stdin).Decode(&jobs); err != nil {
@@ -64,6 +81,12 @@ func ChildMain() {
 	}
 	w := bufio.NewWriter(os.Stdout)
 	for _, j := range jobs {
+		// every job starts from a process without attack goroutines; if a previous job left some
+		// behind (it ended inconclusively) this process is abandoned and the parent starts a fresh one
+		if !noAttackGoroutines(3 * time.Second) {
+			w.Flush()
+			os.Exit(ExitDirty)
+		}
 		var o Outcome
 		switch j.Kind {
 		case "stress":
@@ -219,12 +242,10 @@ func runCtl(j Job) Outcome {
 	}
 	if terminated {
 		// no goroutine of the attack is left behind
-		alive := 1
-		for i := 0; i < 200 && alive > 0; i++ {
+		// generous: on a loaded machine the last goroutines may need a while to be scheduled
+		alive := 0
+		if !noAttackGoroutines(20 * time.Second) {
 			alive, _ = attackGoroutines()
-			if alive > 0 {
-				time.Sleep(time.Millisecond)
-			}
 		}
 		if alive > 0 {
 			out.Findings = append(out.Findings, Finding{Kind: "goroutine_left_behind",
@@ -404,12 +425,9 @@ func runStress(j Job) Outcome {
 	if trues > 1 {
 		out.Findings = append(out.Findings, Finding{Kind: "stop_more_than_one_true", What: "stress: more than one concurrent Stop call returned true", Observed: fmt.Sprint(stopReturns)})
 	}
-	alive := 1
-	for i := 0; i < 300 && alive > 0; i++ {
+	alive := 0
+	if !noAttackGoroutines(20 * time.Second) {
 		alive, _ = attackGoroutines()
-		if alive > 0 {
-			time.Sleep(time.Millisecond)
-		}
 	}
 	if alive > 0 {
 		out.Findings = append(out.Findings, Finding{Kind: "goroutine_left_behind", What: "stress: attack goroutines alive after the channel was closed", Observed: fmt.Sprint(alive)})
